@@ -136,8 +136,29 @@ def oracle_close(f, ctxv):
             late = [k for k in f.kind_idx('msgEnter') if k > e]
             if late:
                 ctxv(f'message callback for {f.obs[late[0]][1]} started after the close callback was entered')
+            # "... after the last message callback has finished or been abandoned": a message callback entered before the close
+            # callback must have returned / raised / been cancelled before it — unless that callback is itself the caller of close()
+            for k in f.kind_idx('msgEnter'):
+                n = f.obs[k][1]
+                if k > e:
+                    continue
+                beh = cfg['msg_beh'].get(n, cfg['default_beh'])
+                if beh in ('close', 'reject') or (isinstance(beh, (tuple, list)) and beh[0] == 'sleep_close'):
+                    continue
+                ends = [j for j, o in enumerate(f.obs) if isinstance(o, list) and o[0] in ('msgExit', 'msgAbandon', 'msgRaise') and o[1] == n and j > k]
+                if not ends or ends[0] > e:
+                    ctxv(f'close callback entered while the message callback for {n} was still running (neither finished nor abandoned)')
+                    break
     elif ne or nx:
         ctxv('close callback observed although none is configured')
+
+
+def _is_closer(cfg, o):
+    """is this the end of a message callback that itself awaited close() (it necessarily returns after the close completed)"""
+    if len(o) < 2:
+        return False
+    beh = cfg['msg_beh'].get(o[1], cfg['default_beh'])
+    return beh in ('close', 'reject') or (isinstance(beh, (tuple, list)) and beh[0] == 'sleep_close')
 
 
 def oracle_clean(f, ctxv):
@@ -153,7 +174,9 @@ def oracle_clean(f, ctxv):
         ctxv(f'task ended with an exception nobody retrieved: {res["task_exceptions"][0]}')
     if res['loop_exceptions']:
         ctxv(f'exception reached the event loop: {res["loop_exceptions"][0]}')
-    x = f.idx('cbExit') or f.idx('tclose')
+    # the moment the close has completed: the close callback returned; if it never returned (the user cancelled the task that was
+    # running it — the user's own doing), the moment it was entered; without a callback, the transport close
+    x = f.idx('cbExit') or f.idx('cbEnter') or f.idx('tclose')
     if x:
         after = f.flat[x[0] + 1:]
         for i, ev, o in after:
@@ -166,6 +189,9 @@ def oracle_clean(f, ctxv):
             if o == 'cbEnter':
                 ctxv('close callback invoked again after it had completed')
                 break
+            if isinstance(o, list) and o[0] in ('msgExit', 'msgAbandon', 'msgRaise', 'cleanupDone') and not _is_closer(f.cfg, o):
+                ctxv(f'message callback for {o[1] if len(o) > 1 else "?"} was still running after the session had closed ({o[0]} after the close completed)')
+                break
     # library tasks must wind down at once: after the close callback returned no task keeps taking steps
     xi = [i for i, (ev, obs) in enumerate(res['log']) if 'cbExit' in obs or ('tclose' in obs and not f.cfg['has_cb'])]
     if xi:
@@ -176,7 +202,7 @@ def oracle_clean(f, ctxv):
         busy = {k: v for k, v in late.items() if v > 1}
         if busy:
             ctxv(f'library tasks kept running after the session had closed (steps after the close completed: {busy})')
-    started = {tuple(ev) for ev, _ in res['log'] if isinstance(ev, list) and ev[0] in ('recv', 'login')}
+    started = {tuple(ev) for ev, _ in res['log'] if isinstance(ev, list) and ev[0] in ('recv', 'login', 'paused_recv')}
     for k, u in started:
         if u not in f.rets():
             ctxv(f'{k} call of user {u} is still blocked after the session closed')
@@ -267,6 +293,10 @@ def oracle_login(f, ctxv):
         if any(it[0] == 'eof' or (it[0] == 'data' and any(t != 'hb' for t in it[1])) for it in f.script):
             ctxv('the peer answered / disconnected but the login attempt never returned')
         return
+    cancel_delivered = any(ev == ['cancel', u] for ev, _ in res['log'])      # cancel() reached the still pending call
+    if cancel_delivered and r == 'ok':
+        ctxv('the caller cancelled the pending login attempt but the cancellation did not propagate: login() returned a session')
+        return
     if r not in ('ok', 'refused') and not (cancelled and r == 'cancelled'):
         ctxv(f'login attempt ended with {r!r} (expected success, a connection-refused error, or the caller\'s own cancellation)')
         return
@@ -304,8 +334,8 @@ FOCUS = {'C04': ['deliver', 'deliver', None], 'C05': ['close', None, 'close'], '
          'C07': ['hostile'], 'C11': ['login']}
 
 
-def run_one(cfg, script, seed):
-    return SC.Scenario(cfg, script, seed=seed).run()
+def run_one(cfg, script, seed, settle=0.05):
+    return SC.Scenario(cfg, script, seed=seed, settle=settle).run()
 
 
 def violations_of(prop, cfg, script, res):
@@ -407,6 +437,35 @@ def run_family(ctx, prop):
             if dis:
                 ctx.disagree(dis[0], rep)
     ctx.cov['events_replayed'] = sum(len(r[4]['log']) for r in results)
+    # ---- extended scenarios: API and callback shapes outside the Lean machine (pause_dispatching, start_dispatching at any time,
+    # callbacks that work and then close, slow cancellation clean-up): property oracle only
+    if prop in ('C04', 'C05', 'C06'):
+        n_ext = 400 if quick else 8000
+        for _ in range(n_ext):
+            r = random.Random(rng.random())
+            cfg, script, settle = SG.gen_ext(r)
+            seed = r.randrange(1 << 30)
+            rep = {'kind': 'scenario', 'ext': True, 'settle': settle, 'cfg': cfg_to_json(cfg), 'script': script_to_json(script), 'seed': seed}
+            try:
+                res = run_one(cfg, script, seed, settle)
+            except Exception as e:   # noqa
+                ctx.violation(f'running the extended scenario raised {type(e).__name__}: {e}', rep)
+                continue
+            n_obs = sum(1 for _, o in res['log'] if o)
+            ctx.case({'ext': True, 'cfg': cfg_to_json(cfg), 'script': script_to_json(script)[:12]}, nontrivial=n_obs >= 5, sample_every=499)
+            ctx.count('focus:ext')
+            for it in script:
+                if it[0] in ('paused_recv', 'startdisp'):
+                    ctx.count('ext:' + it[0])
+            for b in cfg['msg_beh'].values():
+                if isinstance(b, tuple) and b[0] in ('sleep_close', 'cleanup'):
+                    ctx.count('ext:beh-' + b[0])
+            v = violations_of(prop, cfg, script, res)
+            if v:
+                what, kind = split_kind(v[0])
+                ctx.violation(what + '  [extended scenario, not modelled]', dict(rep, kind=kind))
+        ctx.notes.append('extended scenarios (pause_dispatching around a pull, start_dispatching at any moment incl. after close, callbacks that work '
+                         'and then close, cancellation clean-up slower than a heartbeat interval) are evaluated by the property oracle only')
     # ---- application-session layer (ITCH / OUCH / SQF on top of soup): property oracle only, not modelled in Lean
     if prop in ('C04', 'C05', 'C06'):
         import app_sessions as AS
@@ -446,8 +505,8 @@ def replay_family(ctx, prop, path):
             ctx.violation(what, {'kind': kind, 'app_scenario': sc})
         return
     cfg, script, seed = cfg_from_json(rep['cfg']), script_from_json(rep['script']), rep.get('seed', 0)
-    res = run_one(cfg, script, seed)
-    ans = ctx.driver.ask([SC.model_request(cfg, res['log'])])[0] if ctx.driver.available else None
+    res = run_one(cfg, script, seed, rep.get('settle', 0.05))
+    ans = ctx.driver.ask([SC.model_request(cfg, res['log'])])[0] if (ctx.driver.available and not rep.get('ext')) else None
     ctx.cov['rule'] = 'replay of ' + path
     ctx.case({'cfg': cfg_to_json(cfg)})
     ctx.case('replay-marker')
